@@ -128,6 +128,21 @@ def _read_to_end(ex, st, args, dest_ty, func, where):
     return VEnum("Result", I(0), {0: [VInt(data.len, "usize")]})
 
 
+def _async_read_to_end(ex, st, args, dest_ty, func, where):
+    return VStruct("ReadToEndFuture", [args[0], args[1]])
+
+
+def _pin_new(ex, st, args, dest_ty, func, where):
+    return VStruct("Pin", [args[0]])
+
+
+def _poll_read_to_end(ex, st, args, dest_ty, func, where):
+    """an in-memory reader is always ready: the poll performs the whole read"""
+    fut = deep(ex, st, args[0].f[0])
+    r = _read_to_end(ex, st, [fut.f[0], fut.f[1]], dest_ty, func, where)
+    return VEnum("Poll", I(0), {0: [r]})
+
+
 def seq_append(ex, dst, src):
     """dst ++ src for VSeq of bytes; per-index stores up to ex.byte_cap"""
     if z3.is_int_value(simp(dst.len)) and simp(dst.len).as_long() == 0 and z3.is_int_value(simp(dst.off)):
@@ -497,6 +512,10 @@ def install(ex, window_cap, byte_cap, cand_cap):
     S["FastRollingChecksum::digest"] = _frc_digest
     # --- std models (inserted before the generic ones)
     A(r"^<R as (std::io::)?Read>::read_to_end$", _read_to_end, "Read::read_to_end from an in-memory reader (never fails)")
+    A(r"^<R as (tokio::io::)?AsyncReadExt>::read_to_end$", _async_read_to_end, "AsyncReadExt::read_to_end (in-memory reader, always ready)")
+    A(r" as (std::future::)?IntoFuture>::into_future$", lambda ex_, st, a, d, f, w: a[0], "IntoFuture::into_future (identity)")
+    A(r"^Pin::<&mut .*>::new_unchecked$", _pin_new, "Pin::new_unchecked")
+    A(r"^<tokio::io::util::read_to_end::ReadToEnd<'_, R> as (std::future::)?Future>::poll$", _poll_read_to_end, "ReadToEnd::poll (completes immediately)")
     A(r"^Vec::<u8>::push$|^Vec::<usize>::push$", _vec_u8_push, "Vec<scalar>::push")
     A(r"^Vec::<u8>::extend_from_slice$", _vec_u8_extend, "Vec<u8>::extend_from_slice")
     A(r"^(std|core|alloc)::slice::<impl \[u8\]>::to_vec$", _to_vec, "<[u8]>::to_vec")
